@@ -361,6 +361,10 @@ type Case struct {
 	// Stale: the input combo already carries a percent and surcharge (99.9% /
 	// 9.9%) that the table value must replace.
 	Stale bool `json:"stale,omitempty"`
+	// Free: the probed line has no value: "zero-price" (a free item) or
+	// "full-discount" (a 100% line discount). A row worth nothing is taxed like
+	// any other: its combo still gets the table value.
+	Free string `json:"free,omitempty"`
 }
 
 // "inv-credit-preceding": a credit note (issue_date = Date) whose preceding
@@ -528,6 +532,16 @@ func enumBoundaries(yield func(Case) bool) {
 							if !yield(c) {
 								return
 							}
+							if via == "inv-issue" {
+								for _, free := range []string{"zero-price", "full-discount"} {
+									c.Free = free
+									if !yield(c) {
+										return
+									}
+									c.Stale = false
+								}
+								c.Free = ""
+							}
 						}
 					}
 				}
@@ -594,6 +608,7 @@ func genCase(t *rapid.T) Case {
 	c.Via = rapid.SampledFrom(vias).Draw(t, "via")
 	if c.Via != "value" {
 		c.Stale = rapid.Bool().Draw(t, "stale")
+		c.Free = rapid.SampledFrom([]string{"", "", "", "zero-price", "full-discount"}).Draw(t, "free")
 	}
 	if c.Via == "inv-issue-op" || c.Via == "inv-value" || c.Via == "inv-credit-preceding" {
 		if rapid.Bool().Draw(t, "decoy_any") {
@@ -710,11 +725,18 @@ func invoiceJSON(rr rateRef, c Case) []byte {
 			lines = append(lines, row)
 		}
 	}
-	lines = append(lines, map[string]any{
+	probed := map[string]any{
 		"quantity": "1",
 		"item":     map[string]any{"name": "Item", "price": "100.00"},
 		"taxes":    []any{combo},
-	})
+	}
+	switch c.Free {
+	case "zero-price":
+		probed["item"] = map[string]any{"name": "Item", "price": "0.00"}
+	case "full-discount":
+		probed["discounts"] = []any{map[string]any{"percent": "100%", "reason": "gift"}}
+	}
+	lines = append(lines, probed)
 	doc["lines"] = lines
 	if len(charges) > 0 {
 		doc["charges"] = charges
@@ -938,6 +960,9 @@ func judge(c Case, o *vh.Obs) {
 	}
 	if c.Stale {
 		o.Class("stale-input-percent")
+	}
+	if c.Free != "" {
+		o.Class("probed-row-" + c.Free)
 	}
 	if c.Decoy != "" && !expected(rr.rate, c.Decoy, c.Tags, ext).same(want) {
 		o.Class("decoy-date-would-differ")
@@ -1200,7 +1225,7 @@ func judgeUnpublished(c TableCase, o *vh.Obs) {
 func init() {
 	vh.Describe(
 		"Oracle = published tables data/regimes/*.json only: applicable values are those whose tags intersect the document tags (when tagged) and whose ext is contained in the combo's ext (when qualified); the answer is the applicable value with the greatest since <= tax date (undated = minus infinity, a value is in force ON its start date); none => nil / calculation error; exempt key => no percentage; equal start dates: a qualified value beats an unqualified one (class tie:qualified-beats-unqualified, own signature), other ties with different percentages only assert membership. "+
-			"Observed through tax.RateDef.Value on the registered regime and through the last line of an invoice built as JSON (preceded by sibling lines and charges with the same category and rate key and every other extension set the rate publishes, and none), parsed by gobl.Parse and calculated, with the tax date as issue_date, as issue_date next to a decoy op_date, as value_date overriding a decoy issue_date, as the issue_date of a credit note whose preceding document carries a decoy issue date, and as the issue_date of an invoice of another regime far to the east (AE / IN) or west (MX / CO) whose combos name this regime's country; half of the invoice cases carry a stale input percent/surcharge that must be replaced. "+
+			"Observed through tax.RateDef.Value on the registered regime and through the last line of an invoice built as JSON (preceded by sibling lines and charges with the same category and rate key and every other extension set the rate publishes, and none), parsed by gobl.Parse and calculated, with the tax date as issue_date, as issue_date next to a decoy op_date, as value_date overriding a decoy issue_date, as the issue_date of a credit note whose preceding document carries a decoy issue date, and as the issue_date of an invoice of another regime far to the east (AE / IN) or west (MX / CO) whose combos name this regime's country; half of the invoice cases carry a stale input percent/surcharge that must be replaced; in two fifths of the sampled cases (and at every boundary through the issue date) the probed line is worth nothing (a free item, or a 100% line discount) and must still get the table value. "+
 			"boundaries (exhaustive): every published regime file x category x rate key x {since-1, since, since+1 of every value} + {0001-01-01, "+today+", 9999-12-31} x ext variants (none, each qualifier exactly / plus an unrelated pair / value altered, unrelated only) x tag variants (none, unrelated, each table tag) x 4 observation routes. random: arbitrary dates 0001..9999 (40% within 3 or 400 days of a start date, 40% 1985-2035, 20% anywhere), same variants, random decoys. tables: per published rate, strictly descending start dates with the undated value last among unqualified values and inside each identically-qualified group, and the registered Go table equal to the published one value by value; unpublished: every registered rate exists in the published files. "+
 			"Non-trivial: the date is within one day of a published start date, or before the first applicable value, or a qualified value competes with an applicable unqualified one (tables: more than one value).",
 		"data/regimes/*.json in the tree under test are the referee; the Go tables are only ever observed",
